@@ -12,7 +12,7 @@ func (t *Teamserver) ServiceAgent(MagicValue int) agent.ServiceAgentInterface {
 		return nil
 	}
 
-	for _, agentService := range t.Service.Agents {
+	for _, agentService := range t.Service.AgentList() {
 		if agentService.MagicValue == fmt.Sprintf("0x%x", MagicValue) {
 			return agentService
 		}
@@ -28,7 +28,7 @@ func (t *Teamserver) ServiceAgentExist(MagicValue int) bool {
 		return false
 	}
 
-	for _, agentService := range t.Service.Agents {
+	for _, agentService := range t.Service.AgentList() {
 		if agentService.MagicValue == fmt.Sprintf("0x%x", MagicValue) {
 			return true
 		}
